@@ -28,6 +28,7 @@ struct Cn {
     asserted: AtomicU64,
     not_asserted: AtomicU64,
     degenerate: AtomicU64,
+    zero_ok: AtomicU64,
 }
 
 fn fact(n: usize) -> f64 {
@@ -151,9 +152,15 @@ fn check_simplex<const D: usize>(rep: &Report, cn: &Cn, base: &[[f64; D]], perms
             // "numerically zero" is judged against the natural scale of the simplex (its diameter)
             let diam = pts.iter().flat_map(|a| pts.iter().map(move |b| (0..D).map(|k| (a[k] - b[k]).powi(2)).sum::<f64>().sqrt())).fold(0.0, f64::max);
             let _ = scale;
+            // The statement is literal here: a flat simplex must not come back with a finite non-zero measure.
+            // (for a flat facet Ok(0) is tolerated: two coincident points do have distance 0; an earlier version of this check tolerated values
+            // below 1e-6 of the natural scale, which hid the scale-dependent defect recorded in DESIGN 12.)
+            let _ = (diam, ZERO_REL);
             if let Ok(v) = &lm.volume {
-                if v.abs() > ZERO_REL * diam.powi(D as i32).max(FLOOR) {
-                    garbage.push(format!("simplex_volume = {v:e}"));
+                // (the unchanged crate never answers Ok(0) here either: zero Gram determinants are errors)
+                garbage.push(format!("simplex_volume = {v:e}"));
+                if *v == 0.0 {
+                    cn.zero_ok.fetch_add(1, Ordering::Relaxed);
                 }
             }
             if let Ok(r) = &lm.circumradius {
@@ -163,13 +170,30 @@ fn check_simplex<const D: usize>(rep: &Report, cn: &Cn, base: &[[f64; D]], perms
                 garbage.push(format!("circumcenter = {c:?}"));
             }
             if let Ok(r) = &lm.inradius {
-                if r.abs() > ZERO_REL * diam.max(FLOOR) {
-                    garbage.push(format!("inradius = {r:e}"));
+                garbage.push(format!("inradius = {r:e}"));
+            }
+            // facets of a flat simplex: a flat facet must not have a finite non-zero measure either, and a
+            // non-flat facet still has to match its exact measure
+            if D >= 2 {
+                for (i, f) in lm.facets.iter().enumerate() {
+                    let want = em.facets[i];
+                    match f {
+                        Ok(v) if want == 0.0 && *v != 0.0 => garbage.push(format!("facet_measure = {v:e} (facet {i} is flat)")),
+                        Ok(v) if want >= FLOOR && !rel_ok(*v, want) => garbage.push(format!("facet_measure = {v:e}, exact {want:e} (facet {i})")),
+                        Err(e) if want >= FLOOR * scale.max(1.0) => garbage.push(format!("facet_measure = Err({e}) although facet {i} has exact measure {want:e}")),
+                        _ => {}
+                    }
                 }
             }
-            if let Some(g) = garbage.first() {
-                let f = g.split(' ').next().unwrap_or("?");
-                rep.violation(Finding { signature: sig("degenerate_not_reported", f), description: format!("exactly degenerate simplex {pts:?}: {garbage:?} instead of an error"), replay: replay(pts, json!(null)) });
+            // one finding per offending function, so that a listed finding for one function never hides another
+            let mut seen_fn: Vec<String> = Vec::new();
+            for g in &garbage {
+                let f = g.split(' ').next().unwrap_or("?").to_string();
+                if seen_fn.contains(&f) {
+                    continue;
+                }
+                seen_fn.push(f.clone());
+                rep.violation(Finding { signature: sig("degenerate_not_reported", &f), description: format!("exactly degenerate simplex {pts:?}: {g} instead of an error (all: {garbage:?})"), replay: replay(pts, json!(null)) });
             }
             continue;
         }
@@ -247,7 +271,7 @@ fn main() {
     silence_panics();
     let rep = Report::new("C18", &args);
     let thorough = args.tier == Tier::Thorough;
-    let cn = Cn { simplices: AtomicU64::new(0), evals: AtomicU64::new(0), asserted: AtomicU64::new(0), not_asserted: AtomicU64::new(0), degenerate: AtomicU64::new(0) };
+    let cn = Cn { simplices: AtomicU64::new(0), evals: AtomicU64::new(0), asserted: AtomicU64::new(0), not_asserted: AtomicU64::new(0), degenerate: AtomicU64::new(0), zero_ok: AtomicU64::new(0) };
     let mut bounds = Vec::new();
     run_dim::<1>(&rep, &cn, "grid 0..7", &alpha::grid::<1>(8), true, 1, &mut bounds);
     run_dim::<2>(&rep, &cn, "G2(4)", &alpha::grid::<2>(4), true, 1, &mut bounds);
@@ -269,6 +293,7 @@ fn main() {
         "asserted": a,
         "not_asserted_below_floor": cn.not_asserted.load(Ordering::Relaxed),
         "exactly_degenerate_simplices": d,
+        "degenerate_volume_returned_exact_zero": cn.zero_ok.load(Ordering::Relaxed),
         "bounds": bounds,
     });
     let code = rep.finish("exploration", cov, vec!["relative tolerance 1e-9; nothing asserted between 0 and 1e-9 (the crate's absolute degeneracy thresholds)".into()], args.part.as_deref());
